@@ -6,6 +6,7 @@ import UberjobModel.Props.C10
 #print axioms Uberjob.Engine.C10_none
 #print axioms Uberjob.Engine.C10_parallel
 #print axioms Uberjob.Engine.C10_parallel_begin
+#print axioms Uberjob.Engine.C10_parallel_awake
 #print axioms Uberjob.Engine.C10_runs_all_unblocked
 #print axioms Uberjob.Engine.C10_retry_attempts
 #print axioms Uberjob.Engine.C10_retry_bounds
